@@ -7,6 +7,12 @@
 // build tag every function is an empty, inlinable no-op.
 package verifhook
 
+// Event is the value passed to Note by sites that have a source object (for example a notifier).
+type Event struct {
+	Src any
+	V   any
+}
+
 // Yield marks a scheduling point for the deterministic simulator.
 func Yield(string) {}
 
